@@ -545,6 +545,34 @@ impl<T: Debug + Clone + PartialEq + Eq + PartialOrd + NullableValue> Range<T> {
     }
 }
 
+/// Verification-only entry points (feature `__verif`): thin public wrappers around
+/// the crate-internal candidate operations. They add no behaviour of their own.
+#[cfg(feature = "__verif")]
+impl<T: Debug + Clone + PartialEq + Eq + PartialOrd + NullableValue + Default> CandidateValue<T> {
+    #[doc(hidden)]
+    pub fn verif_intersect(&mut self, other: CandidateValue<T>) {
+        self.intersect(other)
+    }
+
+    #[doc(hidden)]
+    pub fn verif_normalize(&mut self) {
+        self.normalize()
+    }
+
+    #[doc(hidden)]
+    pub fn verif_exclude_single_value(&mut self, value: &T) {
+        self.exclude_single_value::<T>(value)
+    }
+}
+
+#[cfg(feature = "__verif")]
+impl<T: Debug + Clone + PartialEq + Eq + PartialOrd + NullableValue> Range<T> {
+    #[doc(hidden)]
+    pub fn verif_new(start: Bound<T>, end: Bound<T>, null_included: bool) -> Self {
+        Self::new(start, end, null_included)
+    }
+}
+
 #[cfg(test)]
 mod tests {
     use std::ops::Bound;
